@@ -149,10 +149,21 @@ func directBA(e *Entity) bool {
 }
 
 func gname(key string) string {
+	if key == "q0" {
+		return `@"0"` // the quoted numeral: a name, not the ID @0
+	}
 	if strings.HasPrefix(key, "@") {
 		return key
 	}
 	return "@" + key
+}
+
+// lname renders a local name.
+func lname(n string) string {
+	if n == "q0" {
+		return `%"0"`
+	}
+	return "%" + n
 }
 
 func mdID(n string) string {
@@ -449,9 +460,9 @@ func (r *renderer) renderFunc(sb *strings.Builder, e *Entity, key string) {
 			case 0:
 				curTerm = retInst
 			case 1:
-				curTerm = "br label %" + ts[0]
+				curTerm = "br label " + lname(ts[0])
 			default:
-				curTerm = fmt.Sprintf("br i1 true, label %%%s, label %%%s", ts[0], ts[1])
+				curTerm = fmt.Sprintf("br i1 true, label %s, label %s", lname(ts[0]), lname(ts[1]))
 			}
 			curTerm += r.mdAttach(l.Refs, ", ")
 		case "invoke":
@@ -486,7 +497,7 @@ func (r *renderer) renderFunc(sb *strings.Builder, e *Entity, key string) {
 			if l.N != "" && cret != "void" {
 				lhs = "%" + l.N + " = "
 			}
-			fmt.Fprintf(sb, "  %sinvoke %s %s(%s)\n          to label %%%s unwind label %%%s%s\n", lhs, cret, gname(callee), cargs, ts[0], ts[1], r.mdAttach(l.Refs, " "))
+			fmt.Fprintf(sb, "  %sinvoke %s %s(%s)\n          to label %s unwind label %s%s\n", lhs, cret, gname(callee), cargs, lname(ts[0]), lname(ts[1]), r.mdAttach(l.Refs, " "))
 			open = false
 		case "lpad":
 			if !open {
@@ -542,11 +553,11 @@ func (r *renderer) renderInst(l *Local) string {
 		case "l.phipred":
 			v := "0"
 			if x.Aux != "" {
-				v = "%" + x.Aux
+				v = lname(x.Aux)
 			}
-			phis = append(phis, fmt.Sprintf("[ %s, %%%s ]", v, x.To))
+			phis = append(phis, fmt.Sprintf("[ %s, %s ]", v, lname(x.To)))
 		case "l.operand":
-			ops = append(ops, "%"+x.To)
+			ops = append(ops, lname(x.To))
 		}
 	}
 	for _, x := range l.Refs {
@@ -594,6 +605,9 @@ func FaultSites(src []Entity) []string {
 	add := func(x Ref) {
 		if x.To == "zz" {
 			out = append(out, x.RK)
+		}
+		if x.To == "q0" {
+			out = append(out, x.RK+`@quoted-numeral`)
 		}
 		if x.Aux == "zz" {
 			out = append(out, x.RK+".aux")
